@@ -20,7 +20,8 @@ func TestAcceptance(t *testing.T) {
 	n, ok := 0, 0
 	rapid.Check(t, func(rt *rapid.T) {
 		m, _ := gen.Module(rt, gen.DefaultCfg())
-		x := m.Text()
+		gen.SparseMetadataIDs(rt, m)
+		x := m.TextNoisy(gen.DrawNoise(rt))
 		n++
 		r := llvmx.Accept(x)
 		if r.OK {
